@@ -208,7 +208,7 @@ func (d *dumper) checkClause(p *packages.Package, fd *ast.FuncDecl, loops []ast.
 
 // ---------------------------------------------------------------- clause rewriting
 
-var identRe = regexp.MustCompile(`\b(old|result[0-9]*)\b`)
+var identRe = regexp.MustCompile(`\b(old|fresh|result[0-9]*)\b`)
 
 func rewriteClause(s string, resTypes []string) (string, error) {
 	s = strings.TrimSpace(s)
@@ -221,6 +221,9 @@ func rewriteClause(s string, resTypes []string) (string, error) {
 		return identRe.ReplaceAllStringFunc(seg, func(m string) string {
 			if m == "old" {
 				return "zzOld"
+			}
+			if m == "fresh" {
+				return "zzFresh"
 			}
 			idx := 0
 			if m != "result" {
